@@ -11,20 +11,33 @@ Variable veqb : V -> V -> bool.
 
 (* accepted only if POST, Content-Type exactly application/json, the no-browsers header
    exactly "setec", the caller identified, and the body decodes *)
-Theorem C08_gate_sound : forall (rq : request V) c q, gate rq = Accept c q ->
+Theorem C08_gate_sound : forall (rq : request V) c q, is_api (rq_endpoint rq) = true -> gate rq = Accept c q ->
   rq_meth rq = MPost /\ rq_ctype rq = CTJson /\ rq_hdr rq = HSetec
   /\ identity (rq_addr_ok rq) (rq_whois rq) = Some c
   /\ decode (rq_endpoint rq) (rq_body rq) (rq_empty rq) = Some q.
 Proof. exact (@gate_sound V). Qed.
 
-Theorem C08_gate_complete : forall rq : request V,
+Theorem C08_gate_complete : forall rq : request V, is_api (rq_endpoint rq) = true ->
   (rq_meth rq <> MPost \/ rq_ctype rq <> CTJson \/ rq_hdr rq <> HSetec
    \/ identity (rq_addr_ok rq) (rq_whois rq) = None
    \/ decode (rq_endpoint rq) (rq_body rq) (rq_empty rq) = None) ->
   exists st, gate rq = Reject st.
 Proof. exact (@gate_complete V). Qed.
 
-(* a rejected request: 4xx/5xx, constant body, state unchanged, no audit record, no save *)
+(* the one route that is not an API endpoint - the HTML listing served on "/" and on every path no API route
+   matches - is served only to a GET whose caller the tailnet identifies (same identity function), and is
+   then exactly that caller's list call: nothing but db.List's answer for that caller is on the page *)
+Theorem C08_html_gate_exact : forall (rq : request V) c q, rq_endpoint rq = EHtml ->
+  (gate rq = Accept c q <->
+   rq_meth rq = MGet /\ identity (rq_addr_ok rq) (rq_whois rq) = Some c /\ q = QList).
+Proof. exact (@html_gate_exact V). Qed.
+
+Theorem C08_html_is_list : forall ev (s : dbstate V) (rq : request V) c,
+  rq_endpoint rq = EHtml -> rq_meth rq = MGet -> identity (rq_addr_ok rq) (rq_whois rq) = Some c ->
+  http_step veqb ev s rq = (let '(s', r, fx) := db_step veqb ev s c OList in (s', respond r, fx)).
+Proof. exact (@html_is_list V veqb). Qed.
+
+(* a rejected request (API or page): 4xx/5xx, constant body, state unchanged, no audit record, no save *)
 Theorem C08_reject_inert : forall ev (s : dbstate V) (rq : request V) st, gate rq = Reject st ->
   400 <= st < 600 /\ http_step veqb ev s rq = (s, {| status := st; rb := BodyConst |}, []).
 Proof. exact (@reject_inert V veqb). Qed.
@@ -74,6 +87,8 @@ Proof. exact identity_exact. Qed.
 
 Print Assumptions C08_gate_sound.
 Print Assumptions C08_gate_complete.
+Print Assumptions C08_html_gate_exact.
+Print Assumptions C08_html_is_list.
 Print Assumptions C08_reject_inert.
 Print Assumptions C08_accepted_is_db_call.
 Print Assumptions C08_status_exact.
@@ -92,6 +107,15 @@ Proof. vm_compute. reflexivity. Qed.
 Example C08_ex_reject_get_method :
   gate {| rq_endpoint := EGet; rq_meth := MGet; rq_ctype := CTJson; rq_hdr := HSetec; rq_addr_ok := true;
           rq_whois := w_ok; rq_body := BObj (QGet [97] 0 false); rq_empty := 0%N |} = Reject 400.
+Proof. vm_compute. reflexivity. Qed.
+Example C08_ex_html_page :
+  snd (fst (http_step N.eqb {| save_ok := true; audit := AOk |} st0
+    {| rq_endpoint := EHtml; rq_meth := MGet; rq_ctype := CTOther; rq_hdr := HOther; rq_addr_ok := true;
+       rq_whois := w_ok; rq_body := BInvalid; rq_empty := 0%N |})) = {| status := 200; rb := BodyResult (RList [([97], [1], 1)]) |}.
+Proof. vm_compute. reflexivity. Qed.
+Example C08_ex_html_post_rejected :
+  gate {| rq_endpoint := EHtml; rq_meth := MPost; rq_ctype := CTJson; rq_hdr := HSetec; rq_addr_ok := true;
+          rq_whois := w_ok; rq_body := BNull; rq_empty := 0%N |} = Reject 400.
 Proof. vm_compute. reflexivity. Qed.
 Example C08_ex_malformed_grant :
   identity true {| w_fail := false; w_tags := Some 1001; w_login := None; w_cap_bare := CapMalformed; w_cap_https := CapRules su_rules |} = None.
